@@ -29,6 +29,10 @@ type Profile struct {
 	OnlyExtend  bool // reads/SetExpiresAfter only extend deadlines (C13 proviso): no custom read tables shorter than create
 	TinyRefresh bool // refresh durations 1..1000ns
 	LongExpiry  bool // expiry durations >= 10000ns (so entries outlive their refresh time)
+	// MidScale: 16..MaxKeys keys with a skewed popularity, maxima 9..150 (entries) and long scripts, so that the
+	// admission window, the probation/protected queues, the hill climber and the sketch's aging are all at work
+	// (with maxima <= 8 the climber's step rounds to nothing and the main queues hold a handful of nodes).
+	MidScale bool
 }
 
 func pick[T any](t *rapid.T, label string, xs ...T) T {
@@ -85,6 +89,9 @@ func genTable(t *rapid.T, p *Profile, label string, allowZero bool) []int64 {
 func GenConfig(t *rapid.T, p *Profile) Config {
 	var c Config
 	c.Keys = rapid.IntRange(2, max(2, p.MaxKeys)).Draw(t, "keys")
+	if p.MidScale {
+		c.Keys = rapid.IntRange(16, max(16, p.MaxKeys)).Draw(t, "midkeys")
+	}
 	// bound
 	bounds := []int{BoundNone, BoundSize, BoundWeight}
 	if p.NeedBound {
@@ -99,6 +106,19 @@ func GenConfig(t *rapid.T, p *Profile) Config {
 			c.Maximum = 1000
 		} else {
 			c.Maximum = uint64(rapid.IntRange(1, 8).Draw(t, "max"))
+		}
+		if p.MidScale {
+			switch rapid.IntRange(0, 3).Draw(t, "midmaxcls") {
+			case 0:
+				c.Maximum = uint64(pick(t, "midmaxpow", 16, 32, 64, 128))
+			case 1:
+				c.Maximum = uint64(rapid.IntRange(41, 150).Draw(t, "midmax"))
+			default:
+				c.Maximum = uint64(rapid.IntRange(9, 40).Draw(t, "midmax"))
+			}
+			if c.Bound == BoundWeight {
+				c.Maximum *= uint64(rapid.IntRange(1, 4).Draw(t, "midmaxmul"))
+			}
 		}
 	}
 	if c.Bound == BoundWeight {
@@ -159,6 +179,20 @@ func GenConfig(t *rapid.T, p *Profile) Config {
 		c.RefReload = genTable(t, p, "refreload", true)
 		c.RefFail = genTable(t, p, "reffail", true)
 	}
+	if rapid.IntRange(0, 4).Draw(t, "constcalc") == 0 {
+		// the constant-duration constructors (ExpiryCreating(d), ExpiryWriting(d), RefreshCreating(d), RefreshWriting(d))
+		c.ConstCalc = true
+		if c.Expiry == ExpCreating || c.Expiry == ExpWriting {
+			for i := range c.ExpDur {
+				c.ExpDur[i] = c.ExpDur[0]
+			}
+		}
+		if c.Refresh == RefCreating || c.Refresh == RefWriting {
+			for i := range c.RefDur {
+				c.RefDur[i] = c.RefDur[0]
+			}
+		}
+	}
 	c.InitCap = pick(t, "initcap", 0, 0, 1, 7, 16, 100, 5000)
 	c.Stats = p.Stats || rapid.IntRange(0, 3).Draw(t, "stats") == 0
 	origins := []int64{0, 1, 1_000_000_000, 1_700_000_000_000_000_000}
@@ -182,6 +216,12 @@ var bulkOuts = []string{"full", "full", "partial", "extra", "partialextra", "emp
 func GenAction(t *rapid.T, p *Profile, cfg *Config, ops []string) Action {
 	a := Action{Op: ops[rapid.IntRange(0, len(ops)-1).Draw(t, "op")]}
 	a.K = rapid.IntRange(0, cfg.Keys-1).Draw(t, "k")
+	if p.MidScale {
+		// skewed popularity: the minimum of up to three uniform draws (shrinks towards key 0)
+		for i := rapid.IntRange(0, 2).Draw(t, "kskew"); i > 0; i-- {
+			a.K = min(a.K, rapid.IntRange(0, cfg.Keys-1).Draw(t, "k2"))
+		}
+	}
 	a.W = rapid.IntRange(0, 7).Draw(t, "w")
 	a.D = rapid.IntRange(0, 7).Draw(t, "d")
 	switch a.Op {
@@ -217,6 +257,9 @@ func GenAction(t *rapid.T, p *Profile, cfg *Config, ops []string) Action {
 		}
 	case "setmaximum":
 		a.N = rapid.IntRange(0, 12).Draw(t, "newmax")
+		if p.MidScale && rapid.IntRange(0, 3).Draw(t, "midnewmaxcls") != 0 {
+			a.N = rapid.IntRange(0, 300).Draw(t, "midnewmax")
+		}
 	case "advance":
 		if p.TinyTTL || p.TinyRefresh {
 			a.Dur = int64(rapid.IntRange(1, 2000).Draw(t, "adv"))
@@ -313,6 +356,9 @@ func GenScript(t *rapid.T, p *Profile) *Script {
 	// rapid's slice lengths average about min+max(min,5): pick the minimum from a few classes so that
 	// long scripts are common while a failing case can still shrink to the smallest class
 	lo := pick(t, "lenclass", p.MinLen, 8, 25)
+	if p.MidScale {
+		lo = pick(t, "midlenclass", p.MinLen, p.MaxLen/4, p.MaxLen/2)
+	}
 	if lo < p.MinLen {
 		lo = p.MinLen
 	}
